@@ -209,7 +209,7 @@ struct C17 : Scenario {
          }
       return p;
    }
-   size_t search_count(int tier) const override { return tier == 0 ? 1500 : 150000; }
+   size_t search_count(int tier) const override { return tier == 0 ? 3000 : 150000; }
    Plan generate(uint64_t run_seed, int) const override
    {
       Rng r(run_seed);
@@ -458,7 +458,7 @@ struct C18 : Scenario {
       p.ops.push_back(o);
       return p;
    }
-   size_t search_count(int tier) const override { return tier == 0 ? 1200 : 120000; }
+   size_t search_count(int tier) const override { return tier == 0 ? 3000 : 120000; }
    Plan generate(uint64_t run_seed, int) const override
    {
       Rng r(run_seed);
